@@ -18,7 +18,8 @@ func init() {
 		Rule: "twin execution of generated programs H;T;K (run A) and H;K (run B, plus B' as determinism control), T ending in Rollback, " +
 			"Close or a Commit that failed; compared: outcome/error kind of every step of K, every page id allocated in K, every byte read, capacity probes, " +
 			"and the user-visible allocator snapshot (data free list, data end marker, metaTotal, #free meta pages, overwrite-mapping keys, #metadata pages) " +
-			"right after T and after a final reopen; non-trivial = T allocated past the old end marker and freed one of its own pages, or grew the meta area, " +
+			"right after T and after a final reopen; within run A the complete allocator state and the reported FileStats right after T equal those right before T, and on a " +
+			"bounded file the file is not larger after T than before it or than the committed end markers require; non-trivial = T allocated past the old end marker and freed one of its own pages, or grew the meta area, " +
 			"or flushed before aborting, or its commit failed; distinct = distinct program hash",
 		Assume: []string{
 			"identities of pages inside the meta area are not compared (flush order iterates Go maps, so they differ between identical runs)",
